@@ -513,8 +513,11 @@ type vfPool struct {
 
 func vfSpin(i *int) {
 	*i++
-	if *i%2000 == 0 {
+	if *i%200 == 0 {
 		runtime.Gosched()
+	}
+	if *i > 200000 && *i%2000 == 0 {
+		time.Sleep(50 * time.Microsecond) // oversubscribed machine: stop burning the CPU the others need
 	}
 }
 
@@ -685,8 +688,14 @@ func vfConc(f []string) string {
 	}
 	set := map[string]bool{}
 	pool := vfNewPool(progs)
+	// <rounds> is an upper bound: on a loaded machine the case stops after a time budget proportional to it
+	// (every observation is checked for admissibility, so fewer rounds only means fewer observations)
+	deadline := time.Now().Add(time.Duration(rounds)*150*time.Microsecond + 200*time.Millisecond)
 	for i := 0; i < rounds; i++ {
 		set[vfConcRound(pool, kind, cap, nl, noise, setup, progs, bks)] = true
+		if i%32 == 31 && time.Now().After(deadline) {
+			break
+		}
 	}
 	pool.stop()
 	var obs []string
@@ -736,7 +745,7 @@ func TestVerifC20(t *testing.T) {
 		select {
 		case line := <-done:
 			fmt.Fprintln(w, line)
-		case <-time.After(120 * time.Second):
+		case <-time.After(300 * time.Second):
 			// an emitter or the tick blocked: the non-blocking clause is violated (or the harness is stuck)
 			fmt.Fprintln(w, "hang")
 		}
